@@ -1365,6 +1365,79 @@ func (e *env) directedSurvivor() {
 	e.finishHistory()
 }
 
+// directedOpenDuringCollection (verifyCrc group): opening a reader takes long when the segment it
+// starts in has to be checksummed first; a collector pass that starts in the middle of that must
+// either come too late (the reader holds its registration, nothing it needs is removed) or early
+// enough for the open to be refused - it must not take the segments away under a reader that is
+// then handed out.  One 1.5-2.5 MiB closed segment, four small closed segments behind it (four short
+// continue sessions), size limit 100 KiB, so the pass wants everything but the tail.  The pass is
+// started a PRNG fraction of the measured open time after the open was called (the clock shapes
+// the schedule only); the reader, if handed out, must reach the right edge (catchUp).
+func (e *env) directedOpenDuringCollection() {
+	rng := e.rng
+	src := e.newID()
+	e.startPoint([]string{src})
+	e.h.Note("session 0 mode=clear (directed: reader opened while a collector pass runs, verifyCrc)")
+	e.delRunId(e.ch.RunId())
+	e.setRunId(src)
+	off := 1 + rng.Int63n(1<<20)
+	if e.newAofWriter(off, true) == nil {
+		return
+	}
+	big := 3<<19 + rng.Intn(1<<20)
+	for fed := 0; fed < big && !e.stopped(); fed += 128 << 10 {
+		e.push(128<<10, true)
+	}
+	if e.stopped() {
+		return
+	}
+	e.endWriter("eof")
+	t0 := time.Now()
+	r0 := e.openAt("left", false)
+	d0 := time.Since(t0)
+	if r0 != nil {
+		e.closeReader(r0)
+	}
+	if e.stopped() {
+		return
+	}
+	for s := 0; s < 4 && !e.stopped(); s++ {
+		sp := e.startPoint([]string{src})
+		e.setRunId(src)
+		if e.newAofWriter(sp.Offset, true) == nil {
+			return
+		}
+		e.push(40<<10+rng.Intn(30<<10), true)
+		if s < 3 {
+			e.endWriter("eof")
+		}
+	}
+	if e.stopped() {
+		return
+	}
+	d := time.Duration(rng.Int63n(int64(d0) + 1))
+	done := make(chan struct{})
+	go func() {
+		defer close(done)
+		time.Sleep(d)
+		e.gc()
+	}()
+	r := e.openAt("left", false)
+	<-done
+	e.gc()
+	e.run.Count("readers_opened_while_a_collector_pass_was_started", 1)
+	if r != nil {
+		e.run.Count("readers_handed_out_while_a_collector_pass_was_started", 1)
+	}
+	e.catchUp(fmt.Sprintf("reader opened while a collector pass was started %v into an open that takes about %v", d, d0))
+	if e.stopped() {
+		return
+	}
+	e.endWriter("eof")
+	e.probe("end of the open-during-collection history")
+	e.finishHistory()
+}
+
 // ---- sequential histories ----
 
 // belowPowerOfTen: a start offset at most two segments below a power of ten, so that the names
@@ -2424,8 +2497,14 @@ func runCase(run *harness.Run, key string, mode string, i int, procs int) {
 		c.Backend = "disk"
 		c.Mode = "sequential"
 	}
+	if mode == "verifycrc-gc" {
+		c.Backend = "disk"
+		c.Mode = "sequential"
+		c.LogSize = 8 << 20
+		c.MaxSize = 100 << 10
+	}
 	e := newEnv(run, key, c, rng)
-	e.guard = mode == "verifycrc"
+	e.guard = mode == "verifycrc" || mode == "verifycrc-gc"
 	defer e.cleanup()
 	if e.ch == nil {
 		return
@@ -2434,6 +2513,10 @@ func runCase(run *harness.Run, key string, mode string, i int, procs int) {
 	case mode == "verifycrc":
 		e.feat("verifycrc")
 		e.sequential()
+	case mode == "verifycrc-gc":
+		e.feat("verifycrc")
+		e.feat("directed.open-during-collection")
+		e.directedOpenDuringCollection()
 	case mode == "concurrent":
 		e.concurrent()
 	case i%12 == 5 || i%12 == 10: // one disk, one memory history in twelve
@@ -2511,6 +2594,9 @@ func main() {
 		config.GetSyncerConfig().Channel.VerifyCrc = true
 		for i := 0; i < run.N(4, 40); i++ {
 			runCase(run, fmt.Sprintf("crc-%d", i), "verifycrc", 2*i, 16)
+		}
+		for i := 0; i < run.N(6, 40); i++ {
+			runCase(run, fmt.Sprintf("crcgc-%d", i), "verifycrc-gc", 2*i, 16)
 		}
 		fmt.Printf("progress: verifyCrc group done, %d violations so far\n", run.ViolationCount())
 	}
